@@ -129,9 +129,9 @@ def run(ctx, replay):
     tr = os.path.join(ctx.scratch, "ingest.ndjson")
     trf = os.path.join(ctx.scratch, "ingest-findings.ndjson")
     if thorough:
-        args = ["--rounds", 1500, "--batches", 5, "--rows", 24, "--findings", 3]
+        args = ["--rounds", 1500, "--batches", 5, "--rows", 24, "--findings", 3, "--chan", 40]
     else:
-        args = ["--rounds", 250, "--batches", 4, "--rows", 20, "--findings", 1]
+        args = ["--rounds", 250, "--batches", 4, "--rows", 20, "--findings", 1, "--chan", 8]
     summ, rc, _ = ctx.run_vdrive(["ingest", "--seed", ctx.seed, "--out", tr, "--out-findings", trf] + args, timeout=1200)
     for u in summ["unresolved"]:
         raise vcore.Unresolved("ingest driver: %s" % u)
